@@ -1,5 +1,6 @@
 import TxdbusModel.Msg.Message
 import TxdbusModel.Wire.Code
+import TxdbusModel.Wire.ToSpec
 /-
 C03 composed with C01: the `BodyCodec` that txdbus itself uses - the code model of `marshal.marshal` /
 `marshal.unmarshal` (Wire/Code.lean, C01/C02) at the offsets message.py calls them with:
@@ -24,5 +25,14 @@ def wireCodec (fuel : Nat) : BodyCodec PyVal where
     match Code.unmarshal fuel sg raw 0 le fds with
     | .ok (_, vals) => .ok (.list vals)
     | .error e => .error e
+
+/-- `Code.toSpecTop` for a `marshal()` call WITHOUT a descriptor list (`oobFDs=None`: what `MethodReturnMessage`,
+`ErrorMessage`, `SignalMessage` and a default `MethodCallMessage` pass): the spec values the body denotes, read with
+`fd = false` (an `h` anywhere does not conform).  Executable premise of `parse_marshal_c01_checked_none`; the driver
+certifies generated cases with it. -/
+def toSpecTopNoFd (fuel : Nat) (ts : List Ty) (pv : PyVal) : Option (List Val) :=
+  match Code.toSpecStructFields pv with
+  | some items => (Code.toSpecFields fuel false ts items []).map (·.1)
+  | none => none
 
 end Txdbus.Msg
